@@ -88,8 +88,8 @@ def run_checked(ctx):
     files = [ff.run_vectors(ctx, vh, vecs, "win")]
 
     # 3. generated inputs (dealt over several record files)
-    scale = 1 if quick else int(os.environ.get("VERIF_FORMATS_SCALE", "16"))
-    shards = 3 if quick else 7
+    scale = 3 if quick else int(os.environ.get("VERIF_FORMATS_SCALE", "16"))
+    shards = 4 if quick else 7
     r = ctx.run_vh(vh, ["formats-gen", "-scale", str(scale), "-shards", str(shards), "-out", ctx.path("gen"),
                         "-full", "900" if quick else "1100", "-sample", "80" if quick else "100",
                         "-fs", ctx.path("formats-fs-gen")])
